@@ -45,25 +45,36 @@ def syntactic_tags(prog: dict) -> list:
             if st["k"] in ("append", "remove", "assign", "aug"):
                 muts.append((st["n"], st["k"], path))
             expr({k: v for k, v in st.items() if k not in ("body", "orelse", "branches")}, path)
-            for br in st.get("branches", []):
+            counter[0] += 1
+            node = counter[0]                      # arms of one if / elif / else chain share the node number
+            for arm, br in enumerate(st.get("branches", [])):
                 expr(br["c"], path)
-                counter[0] += 1
-                block(br["body"], path + (counter[0],))
+                block(br["body"], path + ((node, arm),))
             for key in ("body", "orelse"):
                 if isinstance(st.get(key), list):
-                    counter[0] += 1
-                    block(st[key], path + (counter[0],))
+                    block(st[key], path + ((node, -1 if key == "orelse" else 0),))
 
     block(prog["setup"], ())
     counter[0] += 1
-    block(prog["loop"], (counter[0],))
+    block(prog["loop"], ((counter[0], 0),))
     for d in prog["defs"].values():
         counter[0] += 1
-        block(d["body"], (counter[0],))
+        block(d["body"], ((counter[0], 0),))
+
+    def exclusive(a, b) -> bool:
+        """The two paths part at different arms of one if-chain: the code at one of them never follows the other."""
+        for x, y in zip(a, b):
+            if x == y:
+                continue
+            return x[0] == y[0] and x[1] != y[1]
+        return False
+
     for name, lpath in lens:
         for mname, kind, mpath in muts:
             if mname != name or not mpath:
                 continue
+            if exclusive(mpath, lpath):
+                continue                           # a sibling arm: the pinned tree (correctly) uses the value from before the `if`
             if kind != "aug" or lpath[:len(mpath)] != mpath:
                 tags.append("len-after-nested-mutation")
                 break
